@@ -40,3 +40,112 @@ Example C16_witness :
       (kind_implication, 0%nat, Some 1%nat, 4);
       ([115; 117; 98; 99; 111; 110; 116; 114; 97; 114; 121], 1%nat, Some 2%nat, 6)].
 Proof. vm_compute. reflexivity. Qed.
+
+(** * End-to-end specification of [relations] (Proofs/Relations.v).
+    The mathematical classification ([occurs], [has], [contingent_col], [kind_of], [ukind_of]) is defined
+    independently of the docstring tables; kinds are stated through the inductives [bkind]/[ukind] with
+    [bkind_name]/[ukind_name] (kind-name strings of the tables) and [bkind_order]/[ukind_order] (ranks).
+    Printing ([tostring], also of the empty result) is not modelled in Coq; the harness exercises it. *)
+From Concepts Require Import Proofs.Relations.
+
+(** never a KeyError, for any columns over at least one object *)
+Theorem C16_relations_total : forall nG cols u, (1 <= nG)%nat -> exists l, relations nG cols u = Ok l.
+Proof. exact relations_total. Qed.
+
+(** without include_unary: the stable sort, by rank, of one entry per pair i < j of contingent properties,
+    whose kind is the unique one determined by the occurring combinations; a "replication" i <- j is
+    reported as the implication j -> i ([entry_of_kind]) *)
+Theorem C16_relations_binary_spec : forall nG cols, (1 <= nG)%nat ->
+  exists result, relations nG cols false = Ok result /\
+    result = sort_by okey (map (binary_entry nG cols) (combinations2 (contingent_indices nG cols))) /\
+    Permutation result (map (binary_entry nG cols) (combinations2 (contingent_indices nG cols))) /\
+    sorted_by_rank result /\
+    (forall key, filter (fun e => key_eqb (okey e) key) result =
+                 filter (fun e => key_eqb (okey e) key) (map (binary_entry nG cols) (combinations2 (contingent_indices nG cols)))) /\
+    StronglySorted lt (contingent_indices nG cols) /\
+    (forall i, In i (contingent_indices nG cols) <-> (i < length cols)%nat /\ contingent_col nG (colat cols i)) /\
+    (forall i j, In (i, j) (combinations2 (contingent_indices nG cols)) <->
+       (i < j < length cols)%nat /\ contingent_col nG (colat cols i) /\ contingent_col nG (colat cols j)) /\
+    NoDup (combinations2 (contingent_indices nG cols)) /\
+    (forall i j k, contingent_col nG (colat cols i) -> contingent_col nG (colat cols j) ->
+       kind_of nG (colat cols i) (colat cols j) k -> binary_entry nG cols (i, j) = entry_of_kind k i j) /\
+    (forall i j, contingent_col nG (colat cols i) -> contingent_col nG (colat cols j) ->
+       exists k, kind_of nG (colat cols i) (colat cols j) k /\ forall k', kind_of nG (colat cols i) (colat cols j) k' -> k' = k).
+Proof. exact relations_binary_spec. Qed.
+
+(** with include_unary: additionally one unary entry per property (all of them, in order, before sorting),
+    of the unique kind tautology / contradiction / contingency of its column *)
+Theorem C16_relations_unary_spec : forall nG cols, (1 <= nG)%nat ->
+  exists result, relations nG cols true = Ok result /\
+    result = sort_by okey (map (unary_entry nG cols) (seq 0 (length cols)) ++
+                           map (binary_entry nG cols) (combinations2 (contingent_indices nG cols))) /\
+    Permutation result (map (unary_entry nG cols) (seq 0 (length cols)) ++
+                        map (binary_entry nG cols) (combinations2 (contingent_indices nG cols))) /\
+    sorted_by_rank result /\
+    (forall key, filter (fun e => key_eqb (okey e) key) result =
+                 filter (fun e => key_eqb (okey e) key)
+                   (map (unary_entry nG cols) (seq 0 (length cols)) ++
+                    map (binary_entry nG cols) (combinations2 (contingent_indices nG cols)))) /\
+    (forall i k, ukind_of nG (colat cols i) k -> unary_entry nG cols i = (ukind_name k, i, None, ukind_order k)) /\
+    (forall i, exists k, ukind_of nG (colat cols i) k /\ forall k', ukind_of nG (colat cols i) k' -> k' = k) /\
+    (forall j, (j < length cols)%nat -> length (filter (unary_of j) result) = 1%nat).
+Proof. exact relations_unary_spec. Qed.
+
+(** a binary entry relates two distinct contingent properties: none involves a universal or empty one *)
+Theorem C16_binary_entry_contingent : forall nG cols u result k l r o, (1 <= nG)%nat -> relations nG cols u = Ok result ->
+  In (k, l, Some r, o) result ->
+  l <> r /\ (l < length cols)%nat /\ (r < length cols)%nat /\
+  contingent_col nG (colat cols l) /\ contingent_col nG (colat cols r).
+Proof. exact binary_entry_contingent. Qed.
+
+Theorem C16_no_entry_for_constant : forall nG cols u result k l r o, (1 <= nG)%nat -> relations nG cols u = Ok result ->
+  (universal_col nG (colat cols l) \/ empty_col nG (colat cols l) \/
+   universal_col nG (colat cols r) \/ empty_col nG (colat cols r)) ->
+  ~ In (k, l, Some r, o) result.
+Proof. exact no_entry_for_constant. Qed.
+
+(** exactly one entry mentions the unordered pair {i, j} of contingent properties; none any other pair *)
+Theorem C16_pair_once : forall nG cols u result i j, (1 <= nG)%nat -> relations nG cols u = Ok result ->
+  (i < j < length cols)%nat -> contingent_col nG (colat cols i) -> contingent_col nG (colat cols j) ->
+  length (filter (mentions i j) result) = 1%nat.
+Proof. exact pair_once. Qed.
+
+Theorem C16_pair_none : forall nG cols u result i j, (1 <= nG)%nat -> relations nG cols u = Ok result ->
+  ~ (i <> j /\ (i < length cols)%nat /\ (j < length cols)%nat /\ contingent_col nG (colat cols i) /\ contingent_col nG (colat cols j)) ->
+  filter (mentions i j) result = [].
+Proof. exact pair_none. Qed.
+
+(** an entry of kind implication goes from a strictly narrower to a strictly wider property, and every strict
+    inclusion between contingent properties is reported so *)
+Theorem C16_implication_narrower_to_wider : forall nG cols u result l r o, (1 <= nG)%nat -> Forall (in_range nG) cols ->
+  relations nG cols u = Ok result -> In (kind_implication, l, Some r, o) result ->
+  psubset (colat cols l) (colat cols r).
+Proof. exact implication_narrower_to_wider. Qed.
+
+Theorem C16_psubset_reported : forall nG cols u result l r, (1 <= nG)%nat -> Forall (in_range nG) cols ->
+  relations nG cols u = Ok result -> (l < length cols)%nat -> (r < length cols)%nat ->
+  contingent_col nG (colat cols l) -> contingent_col nG (colat cols r) ->
+  psubset (colat cols l) (colat cols r) ->
+  In (kind_implication, l, Some r, bkind_order Implication) result.
+Proof. exact psubset_reported. Qed.
+
+(** for a context: occurrences are stated through the incidence relation [inc c g i] / [inc c g j] *)
+Theorem C16_context_relations : forall c u, (1 <= nG c)%nat ->
+  exists result, relations (nG c) (cols c) u = Ok result /\
+    result = sort_by okey (members (nG c) (cols c) u) /\
+    sorted_by_rank result /\
+    (forall k l r o, In (k, l, Some r, o) result <->
+       exists i j bk, (i < j < nM c)%nat /\ contingent_ctx c i /\ contingent_ctx c j /\
+                      kind_of_ctx c i j bk /\ (k, l, Some r, o) = entry_of_kind bk i j) /\
+    (forall i j, (i < j < nM c)%nat -> contingent_ctx c i -> contingent_ctx c j ->
+       length (filter (mentions i j) result) = 1%nat) /\
+    (forall i j, ~ (i <> j /\ (i < nM c)%nat /\ (j < nM c)%nat /\ contingent_ctx c i /\ contingent_ctx c j) ->
+       filter (mentions i j) result = []) /\
+    (forall k l o, In (k, l, None, o) result <->
+       u = true /\ exists uk, (l < nM c)%nat /\ ukind_of_ctx c l uk /\ k = ukind_name uk /\ o = ukind_order uk) /\
+    (u = true -> forall j, (j < nM c)%nat -> length (filter (unary_of j) result) = 1%nat) /\
+    (forall l r o, In (kind_implication, l, Some r, o) result ->
+       psubset (col c l) (col c r) /\
+       (forall g, (g < nG c)%nat -> inc c g l = true -> inc c g r = true) /\
+       (exists g, (g < nG c)%nat /\ inc c g l = false /\ inc c g r = true)).
+Proof. exact context_relations. Qed.
